@@ -18,9 +18,11 @@ SQ = "gherkin.token_scanner.TokenScanner"
 SFILE = "python/gherkin/token_scanner.py"
 
 
-def _run(q):
+def _run(q, intr=None):
     I = new_interp()
     I.no_fuse.add(f"{LQ}.split_table_cells")
+    if intr:
+        I.intrinsics.update(intr)
     fi = I.facts.func(q)
     tree, rv, st = I.run(q)
     return I, fi, tree, rv, st
@@ -589,6 +591,33 @@ def rule_source_io(rep: Report, rid="C16.src") -> None:
         and is_const(src["mediaType"][0], "text/x.cucumber.gherkin+plain")
     rep.ob("C17.source", "the source envelope is {uri: path, data: whole file text unchanged, mediaType: Gherkin plain}", ok, **kw,
            expected="{'source': {'uri': path, 'data': open(...).read(), 'mediaType': 'text/x.cucumber.gherkin+plain'}}", found=fmt(rv, I))
+    # SourceEvents: one source event per path, in the order given
+    sq = "gherkin.stream.source_events.SourceEvents"
+    if I.facts.has_func(f"{sq}.enum") and I.facts.has_func(f"{sq}.__init__"):
+        I1, fi1, tree1, rv1, st1 = _run(f"{sq}.__init__")
+        s1 = ("param", fi1.params()[0])
+        attr = next((k2[1] for k2, v2 in st1.ext.items() if k2[0] == s1 and len(fi1.params()) > 1 and v2 == ("param", fi1.params()[1])), None)
+        stub = lambda I_, st_, fi_, args, kwargs, n, tree_: ("source_event", args[0] if args else None)
+        I2, fi2, tree2, rv2, st2 = _run(f"{sq}.enum", {"gherkin.stream.source_events.source_event": stub})
+        rep.used_function(fi2.qualname)
+        s2 = ("param", fi2.params()[0])
+        paths = ("attr", s2, attr) if attr else None
+        ok = False
+        if paths is not None:
+            if rv2 == ("call", "map", (("func", "gherkin.stream.source_events.source_event"), paths), ()):
+                ok = True
+            else:
+                segs = nf.flatten_segs(I2, nf.value_segs(I2, rv2, tree2), tree2) if rv2[0] in ("ref", "cond") else []
+                ys = [n for n, c in nf.iter_nodes(tree2) if n[0] == "yield"]
+                if len(segs) == 1 and segs[0][0] == "loop":
+                    lid = segs[0][1]
+                    ok = I2.loops[lid].get("iter") == paths and not I2.loops[lid].get("conds") and list(segs[0][2]) == [("e", ("source_event", ("elem", lid)))]
+                elif len(ys) == 1:
+                    lp = [c for n, c in nf.iter_nodes(tree2) if n is ys[0]][0]
+                    loops = nf.loops_in_ctx(lp)
+                    ok = len(loops) == 1 and I2.loops[loops[0]].get("iter") == paths and ys[0][1] == ("source_event", ("elem", loops[0])) and not nf.guards_in_ctx(lp)
+        rep.ob("C17.source", "the source stream yields one source event per path, in the order given", ok, file=fi2.file, line=fi2.node.lineno, function=fi2.qualname,
+               expected="map(source_event, self.paths)", found=fmt(rv2, I2))
 
 
 def rule_token(rep: Report, rid="C18.token") -> None:
